@@ -65,7 +65,8 @@ class SchedRun:
         self.starts = []
         self.waiting = {}                  # flow -> [pkts] arrived, service not started
         self.rec = Rec(env, on_put=self._dep)
-        self.sched.out = self.rec
+        if not cfg.get('no_out'):
+            self.sched.out = self.rec      # ('no_out': a scheduler nobody listens to still transmits)
         # 'twin': a second instance of the same scheduler class in the same environment, fed a copy of every packet at the
         # same instant: instances share nothing, so both must behave as if alone (and the twin exactly like the first)
         self.twin = None
@@ -96,6 +97,8 @@ class SchedRun:
         self.check_counters('dep')
 
     def check_counters(self, where):
+        if self.cfg.get('no_out'):
+            return             # departures are not observable without a downstream recorder
         s = self.sched
         for f in sorted(set(self.flows)):
             mine = [p for p in self.held if p.flow_id == f]
